@@ -17,7 +17,7 @@
    published, when add_awaiter / remove_awaiter touch the list).
    Pointers are Z: 0 = nullptr, n + 1 = the Node stored in deposit slot n.
    Ghost: sst (ownership state of every slot), bad (resumptions of a coroutine that is not suspended + nodes queued
-   while the word did not match the expected value), rlog
+   while the word did not match the expected value + writes into the link fields of a node that is not in the list), rlog
    (resumption log: coroutine, wait index, executor the continuation was handed to). *)
 From Coq Require Import ZArith List Bool Arith.
 Require Import Verif.Gen.Gen_coroutine.
@@ -38,7 +38,10 @@ Record cfg := {
   add_rejects : bool;          (* ... guards `return false` (true) or the enqueue (false) *)
   cmp_locked : bool;           (* the comparison is made after _mutex was taken (one critical section with the enqueue) *)
   unlink_linked : bool;        (* remove_awaiter unlinks a node whose prev is set / is nullptr *)
-  unlink_unlinked : bool
+  unlink_unlinked : bool;
+  fix2_nested : bool;          (* remove_awaiter: `node->next->prev = node->prev` sits inside the `if (node->prev)` block *)
+  fix2_nonnull : bool;         (* ... and is executed when node->next is set / is nullptr *)
+  fix2_null : bool
 }.
 
 (* the code as regenerated from /repo *)
@@ -47,16 +50,19 @@ Definition gen_cfg : cfg :=
      wa_adv := wake_all_advance; wa_saved := wake_all_saved;
      rel_fail := release_when 0; rel_succ := release_when 1; cb_tok := callback_when 1; cb_notok := callback_when 0;
      add_when := Gen_coroutine.add_when; add_rejects := negb (add_cond_rejects =? 0);
-     cmp_locked := (add_compare_under_lock =? 1); unlink_linked := unlink_when 1; unlink_unlinked := unlink_when 0 |}.
+     cmp_locked := (add_compare_under_lock =? 1); unlink_linked := unlink_when 1; unlink_unlinked := unlink_when 0;
+     fix2_nested := (next_fixup_nested =? 1); fix2_nonnull := next_fixup_when 1; fix2_null := next_fixup_when 0 |}.
 (* the repaired code (commits 3220185, 0534791, 78434ce) and the code before the three repairs (DESIGN.md F3a-c) *)
 Definition cfg_fixed : cfg :=
   {| w1_adv := fun _ hn => hn; w1_stop_ok := true; w1_stop_fail := false; wa_adv := fun _ ns => ns; wa_saved := fun x => x;
      rel_fail := true; rel_succ := false; cb_tok := true; cb_notok := false; add_when := Z.eqb; add_rejects := false; cmp_locked := true;
-     unlink_linked := true; unlink_unlinked := false |}.
+     unlink_linked := true; unlink_unlinked := false;
+     fix2_nested := true; fix2_nonnull := true; fix2_null := false |}.
 Definition cfg_asis : cfg :=
   {| w1_adv := fun nn _ => nn; w1_stop_ok := true; w1_stop_fail := false; wa_adv := fun na _ => na; wa_saved := fun x => x;
      rel_fail := false; rel_succ := false; cb_tok := true; cb_notok := false; add_when := Z.eqb; add_rejects := false; cmp_locked := true;
-     unlink_linked := true; unlink_unlinked := false |}.
+     unlink_linked := true; unlink_unlinked := false;
+     fix2_nested := true; fix2_nonnull := true; fix2_null := false |}.
 
 Definition enc (o : option nat) : Z := match o with None => 0 | Some n => Z.of_nat n + 1 end.
 Definition dec (z : Z) : option nat := if z <=? 0 then None else Some (Z.to_nat (z - 1)).
@@ -245,6 +251,22 @@ Fixpoint find_token (l : list ((nat * nat) * (nat * Z))) (i j : nat) : option (n
   | ((a, b), id) :: r => if Nat.eqb a i && Nat.eqb b j then Some id else find_token r i j
   end.
 
+(* predecessor of n in the list (None: n is the first node, its prev is the list head, or n is not there) *)
+Fixpoint pred_of (l : list nat) (n : nat) : option nat :=
+  match l with
+  | a :: r => match r with b :: _ => if Nat.eqb b n then Some a else pred_of r n | [] => None end
+  | [] => None
+  end.
+Definition fix_pred (s : st) (l : list nat) (n : nat) (nx : Z) : st :=
+  match pred_of l n with Some p => set_nnext s p nx | None => s end.
+Definition memb (n : nat) (l : list nat) : bool := existsb (Nat.eqb n) l.
+(* node m->prev = <prev of the node being removed> : m->prev becomes non-null iff [lk].  Ghost: a write into a node
+   that is not a member of the list whose mutex the writer holds counts as a violation ([bad]) *)
+Definition fix_next (s : st) (m : nat) (lk inlist : bool) : st :=
+  let sl := slot_at s m in
+  let s1 := put_slot s m (upd_slot sl (ver sl) lk (sst sl)) in
+  if inlist then s1 else set_ghost s1 (S (bad s1)) (rlog s1).
+
 Section Step.
 Variable c : cfg.
 
@@ -319,13 +341,18 @@ Definition step_client (s : st) (t : nat) (cl : client) : option st :=
     | None => Some (set_client s t (finish_op cl (RWA (cnt + 1))))
     | Some n => Some (set_client s t (goto cl (WAResume n (tl todo) (cnt + 1))))
     end
-  | CKLock n =>                                        (* remove_awaiter: lock; if (node->prev) unlink; unlock *)
+  | CKLock n =>                      (* remove_awaiter: lock; the two fix-ups of the neighbours under their guards; unlock *)
     match mtx s with
     | Some _ => None
     | None =>
-      let s1 := if (if linked (slot_at s n) then unlink_linked c else unlink_unlinked c)
-                then set_lst s (remove_nat n (lst s)) else s in
-      Some (set_client (mark s1 n (SHeld t)) t (goto cl (CKResume n)))
+      let lk := linked (slot_at s n) in                (* node->prev != nullptr *)
+      let nx := nnext s n in                           (* node->next, possibly stale: wake_all keeps it in a detached node *)
+      let do1 := if lk then unlink_linked c else unlink_unlinked c in
+      let do2 := (if fix2_nested c then do1 else true) && (if nx =? 0 then fix2_null c else fix2_nonnull c) in
+      let s1 := if do1 then fix_pred (set_lst s (remove_nat n (lst s))) (lst s) n nx else s in   (* node->prev->next = node->next *)
+      let s2 := if do2 then match dec nx with Some m => fix_next s1 m lk (memb m (lst s)) | None => s1 end
+                else s1 in                                                                    (* node->next->prev = node->prev *)
+      Some (set_client (mark s2 n (SHeld t)) t (goto cl (CKResume n)))
     end
   | CKResume n => Some (set_client (mark (resume_node s n) n (SFin t)) t (goto cl (CKFinish n)))
   | CKFinish n => Some (set_client (release s n) t (finish_op cl (RK (Some true))))
